@@ -157,9 +157,10 @@ func HandleBulkBody(postBody []byte, ctx *fasthttp.RequestCtx, rid uint64, myid 
 	var err error
 	var line []byte
 	remainingPostBody := postBody
-	for {
+	for len(remainingPostBody) > 0 {
 		line, remainingPostBody = utils.ReadLine(remainingPostBody)
-		if len(remainingPostBody) == 0 {
+		if len(line) == 0 && len(remainingPostBody) == 0 {
+			// blank line at the very end of the body
 			break
 		}
 
